@@ -17,8 +17,7 @@ Lemma ps_decision : forall neg value,
   - 2 ^ 31 <= neg < 2 ^ 31 -> 0 <= value < 2 ^ 64 ->
   gen_ps_const_length neg value =
     if neg =? 0 then (if value <=? 2 ^ 63 - 1 then PSLen value else PSErr PSTooLarge)
-    else if value =? 0 then PSLen 0
-    else if neg =? 1 then PSErr PSNotPositive
+    else if neg =? 1 then (if value =? 0 then PSLen 0 else PSErr PSNotPositive)
     else PSErr PSDisagree.
 Proof.
   intros neg value Hn Hv. unfold gen_ps_const_length. rewrite max_ssize_t_value.
@@ -26,18 +25,20 @@ Proof.
 Qed.
 
 (* return codes other than 0 and 1 (the getter's "the C compiler disagrees with the cdef":
-   2 = disagreement on a positive value, 3 = on a value <= 0) never give a non-zero length *)
-Lemma ps_mismatch_code_nonzero : forall neg value,
-  - 2 ^ 31 <= neg < 2 ^ 31 -> 0 < value < 2 ^ 64 -> neg <> 0 -> neg <> 1 ->
+   2 = disagreement on a positive value, 3 = on a value <= 0) never give a length *)
+Lemma ps_mismatch_code : forall neg value,
+  - 2 ^ 31 <= neg < 2 ^ 31 -> 0 <= value < 2 ^ 64 -> neg <> 0 -> neg <> 1 ->
   gen_ps_const_length neg value = PSErr PSDisagree.
 Proof.
   intros neg value Hn Hv N0 N1. rewrite ps_decision by lia. ps_fin.
 Qed.
 
-(* a length that comes out is gc.value, and it is a valid ssize_t *)
+(* a length that comes out is gc.value, it is a valid ssize_t, and the return code said
+   "agrees" (0 or 1) *)
 Lemma ps_length_is_value : forall neg value n,
   - 2 ^ 31 <= neg < 2 ^ 31 -> 0 <= value < 2 ^ 64 ->
-  gen_ps_const_length neg value = PSLen n -> n = value /\ 0 <= n <= 2 ^ 63 - 1.
+  gen_ps_const_length neg value = PSLen n ->
+  n = value /\ 0 <= n <= 2 ^ 63 - 1 /\ (neg = 0 \/ neg = 1).
 Proof.
   intros neg value n Hn Hv. rewrite ps_decision by lia. pows.
   split_ifs; intros H; inversion H; subst; lia.
@@ -68,14 +69,13 @@ Qed.
 
 Lemma ps_of_disagreeing c : - 2 ^ 63 <= c < 2 ^ 64 ->
   gen_ps_const_length (Z.lor (b2z (c <=? 0)) gen_check_fail_bits) (c mod 2 ^ 64) =
-  if c =? 0 then PSLen 0 else PSErr PSDisagree.
+  PSErr PSDisagree.
 Proof.
-  intros C. rewrite ps_decision by (try apply lor_fail_range; pows; lia).
-  pows. destruct (Z.leb_spec c 0); cbn [b2z].
-  - change (Z.lor 1 gen_check_fail_bits) with 3.
-    change (3 =? 0) with false. change (3 =? 1) with false. cbv iota. ps_fin.
-  - change (Z.lor 0 gen_check_fail_bits) with 2.
-    change (2 =? 0) with false. change (2 =? 1) with false. cbv iota. ps_fin.
+  intros C. apply ps_mismatch_code; try apply lor_fail_range; try (pows; lia);
+    destruct (c <=? 0); cbn [b2z];
+      [change (Z.lor 1 gen_check_fail_bits) with 3 | change (Z.lor 0 gen_check_fail_bits) with 2
+      | change (Z.lor 1 gen_check_fail_bits) with 3 | change (Z.lor 0 gen_check_fail_bits) with 2];
+      discriminate.
 Qed.
 
 (* ---- the statements used by Props.v *)
@@ -84,8 +84,7 @@ Qed.
 Theorem array_length_checked : forall T c e,
   promoted T -> in_range T c -> - 2 ^ 64 < e < 2 ^ 64 ->
   const_array_length KMacro T c (Some e) =
-    Some (Ok (if c =? e then length_of_value c
-              else if c =? 0 then PSLen 0 else PSErr PSDisagree)).
+    Some (Ok (if c =? e then length_of_value c else PSErr PSDisagree)).
 Proof.
   intros T c e P R E. unfold const_array_length, check_value_of.
   change gen_ps_length_from_constant_int with true. change gen_macro_checked with true.
@@ -99,12 +98,11 @@ Proof.
 Qed.
 
 Theorem array_length_mismatch_raises : forall T c e,
-  promoted T -> in_range T c -> - 2 ^ 64 < e < 2 ^ 64 -> c <> e -> c <> 0 ->
+  promoted T -> in_range T c -> - 2 ^ 64 < e < 2 ^ 64 -> c <> e ->
   const_array_length KMacro T c (Some e) = Some (Ok (PSErr PSDisagree)).
 Proof.
-  intros T c e P R E N Z0. rewrite (array_length_checked T c e P R E).
-  destruct (Z.eqb_spec c e); [contradiction|]. destruct (Z.eqb_spec c 0); [contradiction|].
-  reflexivity.
+  intros T c e P R E N. rewrite (array_length_checked T c e P R E).
+  destruct (Z.eqb_spec c e); [contradiction|]. reflexivity.
 Qed.
 
 (* '#define N ...', 'static const int N;' and (whatever the cdef says) enumerators *)
@@ -143,8 +141,7 @@ Theorem checked_kind_iff : forall k T c cdef e,
   promoted T -> in_range T c -> - 2 ^ 64 < e < 2 ^ 64 -> check_value_of k cdef = Some e ->
   lib_constant k T c cdef = Some (if c =? e then Ok c else Err FFIError) /\
   const_array_length k T c cdef =
-    Some (Ok (if c =? e then length_of_value c
-              else if c =? 0 then PSLen 0 else PSErr PSDisagree)).
+    Some (Ok (if c =? e then length_of_value c else PSErr PSDisagree)).
 Proof.
   intros k T c cdef e P R E H. pose proof (in_range_promoted T c P R) as C. split.
   - unfold lib_constant. rewrite H, (proj2 (in_domain_spec e) E). cbn [negb].
